@@ -2,13 +2,15 @@
     the family number; the verdict says whether the implementation's observed
     behaviour equals the model's. *)
 From Coq Require Import List ZArith Bool.
-From FF Require Import Sx Dispatch TaskTree.
+From FF Require Import Sx Dispatch TaskTree StoreModel StoreCheck.
 Import ListNotations.
 Local Open Scope Z_scope.
 
 Definition run_monitor (family : Z) (c : sx) : option bool :=
   match family with
   | 7 => monitor_dispatch c
+  | 20 => monitor_store_trace c
+  | 21 => monitor_worker_key_case c
   | _ => None
   end.
 
@@ -19,5 +21,8 @@ Definition run_case (family : Z) (c : sx) : verdict :=
   | 17 => check_tree_static c
   | 18 => check_next c
   | 19 => check_cancel_mark c
+  | 20 => check_store_trace c
+  | 21 => check_worker_key_case c
+  | 22 => check_flake_case c
   | _ => BadCase 0
   end.
